@@ -581,12 +581,14 @@ def virtual_side(s, ext, coords):
             return None, None, ("no loop-carried value of the walk starts from the extents (start values: %s): the curve's side does not depend on the field's size, "
                                 "so the walk cannot cover the square the storage is allocated for" % [ir.show(x) for x in inits])
         return None, None, None
-    if not step_expr(cand, set(ext)):
-        raise AnalysisBroken("Hilbert walk: the side %s is not a step expression of the extents (count-leading-zeros, shifts, constants, max): evaluation at power-of-two boundaries would not decide it" % ir.show(cand)[:100])
     vals = []
     for (e0, e1) in extent_pairs():
         v = ev_int(cand, {ext[0]: e0, ext[1]: e1})
         vals.append((e0, e1, v, rp2(max(e0, e1))))
+    agree = all(v == n for _, _, v, n in vals) or all(v == n // 2 for _, _, v, n in vals)
+    if agree and not step_expr(cand, set(ext)):
+        # no witness against it, but agreement at the points tried proves equality only for a step expression
+        raise AnalysisBroken("Hilbert walk: the side %s agrees with round_pow2(max extent) at every extent pair tried but is not a step expression of the extents: not decided" % ir.show(cand)[:100])
     if all(v == n for _, _, v, n in vals):
         return Proxy(s, {cand: VIRT}), VIRT, None
     if all(v == n // 2 for _, _, v, n in vals):
